@@ -463,11 +463,17 @@ let spec_check (know : int list) (s : sx) =
         if not okv && (try Sys.getenv "VERIF_SHOW_M2" = "1" with Not_found -> false) then
           Printf.printf "M2BAD case=%s cmd=%s\n" (fst !cur) (snd !cur)
       end;
-      (* EXPERIMENT (statement validation for the per-actor theorem): op-based per-actor delivery, no update carrying a nested remove *)
+      (* value level, Map<K, Orswot>, per-actor (overtaking) op-based delivery, no update carrying a nested remove:
+         theorems C08_mapor_values_per_actor / C05_mapor_values_refine_per_actor (proofs/MapOrswotPA.v);
+         histories with a nested remove are finding T3 territory and are left to the canonical comparison *)
       if !ty = "mapor" && not !merges_seen && !all_per_actor && not !all_causal
          && not (List.exists (fun (_, o, _) -> Known.is_up o && Known.contains_remove (field "op" o)) !hist) then begin
         let okv = movalspec_ok (history_of (mop_sx or_inst)) k (cmap_sx or_inst s) in
-        stat ("mapval_pa_" ^ (if okv then "ok" else "bad"))
+        stat ("mapval_pa_" ^ (if okv then "ok" else "bad"));
+        let saved = !classes in
+        classes := [];
+        expect_all ["C05"; "C08"] (fun () -> "Map<K,Orswot>, per-actor delivery without nested removes: the members (with their witness clocks) stored under some key differ from the value-level specification of the replica's knowledge") okv;
+        classes := saved
       end;
       if !ty = "mapor" && not !merges_seen && !all_causal then begin
         let okv = movalspec_ok (history_of (mop_sx or_inst)) k (cmap_sx or_inst s) in
